@@ -3,7 +3,7 @@
    must be a behaviour of ShmXfer!Spec.  A trace = [cap, world, ev]; one logged event per client-visible step, with
    the allocation table (offsets relative to the data region) read from the real segment header afterwards:
      [e |-> "Unary", rq, res, out, r, tab]   [e |-> "Begin", k, ci, co, fail, nout]
-     [e |-> "Input", r ("data"|"err"|"stop"|"cb"), via, keep, tab]   [e |-> "Close", how, tab]
+     [e |-> "Input", r ("data"|"err"|"stop"|"cb"), via, keep, chk (is tab meaningful: server quiescent), tab]   [e |-> "Close", how, tab]
      [e |-> "EndCall", rel, tab]   [e |-> "ReleaseHeld", off, tab]
    Server halves are silent steps inferred by TLC.  The set of repairs fx is chosen per trace (any subset): a trace is
    accepted iff some fx explains it; the verdict lists the accepting fx sets and, per fx, the ShmXfer clauses that were
@@ -35,7 +35,7 @@ TInput3 == /\ More /\ Ev.e = "Input"
            /\ \/ Ev.r = "data" /\ CData(Ev.keep) /\ (st.io # -1) = Ev.via /\ Layout(mem') = Tab(Ev)
               \/ Ev.r = "cb" /\ CDataCb          \* no table check: the server may still be writing the rest of its turn
               \/ /\ Ev.r \in {"err", "stop"} /\ st.pc = (IF Ev.r = "err" THEN "s_err" ELSE "s_stop")
-                 /\ Layout(mem) = Tab(Ev) /\ UNCHANGED vars
+                 /\ (Ev.chk => Layout(mem) = Tab(Ev)) /\ UNCHANGED vars
            /\ Eat
 TClose1 == More /\ Ev.e = "Close" /\ CClose(Ev.how) /\ Stay
 TClose2 == SEnd /\ Stay
